@@ -5,7 +5,10 @@ Workload: seeded, well-nested *programs* (5–60 ops, nesting depth <= 8) over t
 `Frame::push / root / disabled / current` x `enter`-guard / `with` / `call` / `in_fn` /
 `in_future`, re-entering a frame, frames created at one program point and entered at another,
 frames moved to spawned threads (and back) and into other tasks, 2–4 *logical* context
-instances (`ThreadLocalCtxt::new()`, at most one `ThreadLocalCtxt::shared()`), every one of them
+instances (`ThreadLocalCtxt::new()`, at most one `ThreadLocalCtxt::shared()`) whose constructor calls
+are made on *different threads* (the long-lived worker thread, helper threads that only create a
+ctxt and send it back over a channel, one sibling thread creating several, the thread that then
+runs the program - a fresh one for a third of the programs) and which are then used together, every one of them
 reachable through many handle types (by value, `&`, `&dyn ErasedCtxt` over the plain ctxt /
 `Option` / `AssertInternal` / `Box<dyn ErasedCtxt>` / a padding wrapper, `Box<dyn>`, `Arc<dyn>`,
 `Option`, and the erased ctxt of an `AmbientSlot`-held runtime) so that `ErasedFrame` stores its
@@ -283,11 +286,21 @@ struct Inst {
     live: Arc<AtomicI64>,
     shared: bool,
     slot_kind: u8,
+    place: Place,
+}
+
+/// The only call sites of `ThreadLocalCtxt::new()` / `shared()` for program instances.
+fn make_ctxt(shared: bool) -> ThreadLocalCtxt {
+    if shared {
+        ThreadLocalCtxt::shared()
+    } else {
+        ThreadLocalCtxt::new()
+    }
 }
 
 impl Inst {
-    fn new(shared: bool, slot_kind: u8) -> Inst {
-        let tl = if shared { ThreadLocalCtxt::shared() } else { ThreadLocalCtxt::new() };
+    fn new(tl: ThreadLocalCtxt, def: InstDef) -> Inst {
+        let (shared, slot_kind) = (def.shared, def.slot_kind);
         let live = Arc::new(AtomicI64::new(0));
         let pad = Pad { inner: tl, live: live.clone() };
         let slot = AmbientSlot::new();
@@ -308,6 +321,7 @@ impl Inst {
             live,
             shared,
             slot_kind,
+            place: def.place,
         }
     }
 
@@ -489,9 +503,44 @@ enum AItem {
 
 #[derive(Debug, Hash)]
 struct Program {
-    insts: Vec<(bool, u8)>, // (shared, slot kind)
+    insts: Vec<InstDef>,
+    /// run the whole program on a freshly spawned thread (which also creates the
+    /// `Place::ProgramThread` instances) instead of the long-lived worker thread
+    fresh_thread: bool,
     n_vars: usize,
     ops: Vec<Op>,
+}
+
+/// On which thread an instance's `ThreadLocalCtxt::new()` / `shared()` call is made. The ctxt is
+/// `Copy + Send`: wherever it was made, it is *used* together with the others by the program.
+#[derive(Clone, Copy, Debug, PartialEq, Eq, Hash)]
+enum Place {
+    /// the long-lived par_cases worker thread (many earlier `new()` calls happened there)
+    Worker,
+    /// a helper thread of its own that does nothing else and sends the ctxt back over a channel
+    OwnHelper,
+    /// one sibling helper thread shared by all `Sibling` instances of the program
+    Sibling,
+    /// the thread that then runs the program (a fresh one if `fresh_thread`)
+    ProgramThread,
+}
+
+impl Place {
+    fn name(self) -> &'static str {
+        match self {
+            Place::Worker => "instance-created-on:worker-thread",
+            Place::OwnHelper => "instance-created-on:own-helper-thread",
+            Place::Sibling => "instance-created-on:shared-sibling-thread",
+            Place::ProgramThread => "instance-created-on:program-thread",
+        }
+    }
+}
+
+#[derive(Clone, Copy, Debug, Hash)]
+struct InstDef {
+    shared: bool,
+    slot_kind: u8,
+    place: Place,
 }
 
 #[derive(Clone, Copy, PartialEq)]
@@ -828,7 +877,14 @@ impl<'r> Gen<'r> {
 fn generate(r: &mut Rng, min_ops: u64, max_ops: u64) -> Program {
     let n_inst = 2 + r.usize(3);
     let shared_at = if r.chance(1, 3) { Some(r.usize(n_inst)) } else { None };
-    let insts = (0..n_inst).map(|i| (shared_at == Some(i), r.below(3) as u8)).collect();
+    let insts = (0..n_inst)
+        .map(|i| InstDef {
+            shared: shared_at == Some(i),
+            slot_kind: r.below(3) as u8,
+            place: *r.pick(&[Place::Worker, Place::OwnHelper, Place::OwnHelper, Place::Sibling, Place::Sibling, Place::ProgramThread]),
+        })
+        .collect();
+    let fresh_thread = r.chance(1, 3);
     let budget = r.range(min_ops.max(1), max_ops.max(min_ops).max(1)) as i64;
     let mut g = Gen { r, n_inst, n_vars: 0, budget, max_depth: 8 };
     let mut sc = Scope { st: Vec::new() };
@@ -837,7 +893,7 @@ fn generate(r: &mut Rng, min_ops: u64, max_ops: u64) -> Program {
         g.op(&mut sc, 0, false, &mut ops);
     }
     let _ = sc.get(0);
-    Program { insts, n_vars: g.n_vars, ops }
+    Program { insts, fresh_thread, n_vars: g.n_vars, ops }
 }
 
 // ---------------------------------------------------------------------------
@@ -943,7 +999,8 @@ fn compare(cx: &Cx, site: &'static str, inst: usize, via: &str, got: &Map) {
                     site, thread, inst, via, got, kind, want
                 ),
                 detail: json!({"site": site, "thread": thread, "instance": inst, "via": via, "got": got, "want": *want,
-                               "shared_instance": cx.insts[inst].shared, "slot_kind": cx.insts[inst].slot_kind}),
+                               "shared_instance": cx.insts[inst].shared, "slot_kind": cx.insts[inst].slot_kind,
+                               "instances_created_on": cx.insts.iter().map(|i| i.place.name()).collect::<Vec<_>>()}),
             });
         }
     })
@@ -1469,25 +1526,96 @@ fn run_program(r: &mut Report, seed: u64, index: u64, (min_ops, max_ops): (u64, 
     if verbose {
         eprintln!("{:?}", prog);
     }
-    let cx = Cx {
-        insts: prog.insts.iter().map(|(shared, k)| Inst::new(*shared, *k)).collect(),
-        n_vars: prog.n_vars,
-        seed,
-        index,
-        min_ops,
-        max_ops,
-        check_every,
-        done: Mutex::new(Vec::new()),
+    // ---- the context instances are made on different threads ----
+    let mut made: Vec<Option<ThreadLocalCtxt>> = prog
+        .insts
+        .iter()
+        .map(|d| if d.place == Place::Worker { Some(make_ctxt(d.shared)) } else { None })
+        .collect();
+    {
+        let (tx, rx) = std::sync::mpsc::channel::<(usize, ThreadLocalCtxt)>();
+        let siblings: Vec<(usize, bool)> = prog.insts.iter().enumerate().filter(|(_, d)| d.place == Place::Sibling).map(|(i, d)| (i, d.shared)).collect();
+        std::thread::scope(|s| {
+            for (i, d) in prog.insts.iter().enumerate() {
+                if d.place == Place::OwnHelper {
+                    let tx = tx.clone();
+                    let shared = d.shared;
+                    s.spawn(move || {
+                        let _ = tx.send((i, make_ctxt(shared)));
+                    });
+                }
+            }
+            if !siblings.is_empty() {
+                let tx = tx.clone();
+                s.spawn(move || {
+                    for (i, shared) in siblings {
+                        let _ = tx.send((i, make_ctxt(shared)));
+                    }
+                });
+            }
+        });
+        drop(tx);
+        for (i, tl) in rx {
+            made[i] = Some(tl);
+        }
+    }
+    let prog_ref = &prog;
+    // the rest (`Place::ProgramThread`) is made by the thread that runs the program
+    let make_and_run = move || {
+        let cx = Cx {
+            insts: prog_ref.insts.iter().zip(made).map(|(d, m)| Inst::new(m.unwrap_or_else(|| make_ctxt(d.shared)), *d)).collect(),
+            n_vars: prog_ref.n_vars,
+            seed,
+            index,
+            min_ops,
+            max_ops,
+            check_every,
+            done: Mutex::new(Vec::new()),
+        };
+        let res = catch(|| {
+            run_thread(&cx, "main", || {
+                let mut env = Env::new(prog_ref.n_vars);
+                exec_block(&cx, &prog_ref.ops, &mut env, "program-start");
+                drop(env);
+                check(&cx, "after-all-frames-dropped");
+            })
+        });
+        (res, cx)
     };
-    let res = catch(|| {
-        run_thread(&cx, "main", || {
-            let mut env = Env::new(prog.n_vars);
-            exec_block(&cx, &prog.ops, &mut env, "program-start");
-            drop(env);
-            check(&cx, "after-all-frames-dropped");
-        })
-    });
+    let (res, cx) = if prog.fresh_thread {
+        match std::thread::scope(|s| s.spawn(make_and_run).join()) {
+            Ok(x) => x,
+            Err(p) => {
+                r.eval();
+                r.violation(
+                    "C03:unexpected-panic:program-thread",
+                    &format!("the program's own thread died outside the program: {}", panic_message(&p)),
+                    json!({"seed": seed, "index": index, "min_ops": min_ops, "max_ops": max_ops, "check_every": check_every}),
+                );
+                return;
+            }
+        }
+    } else {
+        make_and_run()
+    };
     r.eval();
+    for d in &prog.insts {
+        r.observe(d.place.name(), 1);
+    }
+    if prog.fresh_thread {
+        r.observe("programs-run-on-a-fresh-thread", 1);
+    }
+    {
+        // distinct creating threads: the worker, every own helper, the sibling, the program thread if fresh
+        let mut threads = prog.insts.iter().filter(|d| d.place == Place::OwnHelper).count();
+        threads += prog.insts.iter().any(|d| d.place == Place::Sibling) as usize;
+        let on_worker = prog.insts.iter().any(|d| d.place == Place::Worker || (d.place == Place::ProgramThread && !prog.fresh_thread));
+        let on_fresh = prog.fresh_thread && prog.insts.iter().any(|d| d.place == Place::ProgramThread);
+        threads += on_worker as usize + on_fresh as usize;
+        if threads >= 2 {
+            r.observe("programs-with-instances-created-on-2+-threads", 1);
+        }
+    }
     let mut case = cx.case();
     let done = std::mem::take(&mut *cx.done.lock().unwrap());
     let corrupt = CORRUPT_CANARIES.swap(0, Ordering::Relaxed);
